@@ -1,23 +1,25 @@
 (* L4 faults: what the code does when one file operation fails (read off the Rust, see DESIGN.md C11).
    - a failed record append: Blob::write returns before index.push; nothing changes at this layer;
-   - a failed index dump: IndexStruct::dump_in_memory has already taken the headers out of the map
-     (std::mem::take) when FileIndex::from_records fails: the blob keeps an EMPTY in-memory index (F9);
-   - a failed fsync in close_active_blob: the active blob was already taken out of `safe` and is dropped
-     with the error (F15);
-   - a failed blob creation while the worker rotates: process_msg returns Err, the worker panics (F1). *)
+   - a failed index dump: IndexStruct::dump_in_memory takes the headers out of the map while the file is written
+     and puts them back when FileIndex::from_records fails: the blob is as before, its index still in memory
+     (before commit e3d3ed5 of the code they were dropped: F9);
+   - a failed fsync in close_active_blob: the blob is synced while it still is the active one, the error leaves
+     the storage as it was (before commit 20e4a83 of the code the blob had already been taken out and was dropped: F15);
+   - a failed blob creation while the worker rotates: the error is logged, one blob id is used up, the worker
+     carries on (before commit 62103db it panicked: F1). *)
 Require Import Pearl.Base.Prelude Pearl.Storage.Model Pearl.Storage.Spec.
 
 Definition append_fails (s : storage) : storage := s.
 
-Definition dump_fails (b : blob) : blob :=
-  if b_ondisk b then b else
-  {| b_id := b_id b; b_recs := b_recs b; b_idx := []; b_ondisk := false; b_idxfile := b_idxfile b |}.
+Definition dump_fails (b : blob) : blob := b.
 
 Definition dump_fails_on (s : storage) (id : N) : storage :=
   upd_closed s (map (fun o => match o with
                               | Some b => Some (if b_id b =? id then dump_fails b else b)
                               | None => None end) (s_closed s)).
 
-Definition close_active_fsync_fails (s : storage) : storage := upd_active s None.
+Definition close_active_fsync_fails (s : storage) : storage := s.
 
-Definition rotation_create_fails (s : storage) : storage := upd_alive s false.
+Definition rotation_create_fails (s : storage) : storage :=
+  {| s_active := s_active s; s_closed := s_closed s; s_next := s_next s + 1; s_corrupted := s_corrupted s; s_alive := s_alive s;
+     s_dump_req := s_dump_req s; s_aged := s_aged s; s_open := s_open s; s_f2 := s_f2 s |}.
